@@ -405,6 +405,17 @@ def init (srcIds : Nat → List Nat) (contIds : List Nat) : State :=
     tasks := fun _ => none, active := fun _ _ => none, largest := fun _ => (NDIR, 0),
     cont := fun _ => [], contLeft := contIds.length, flushCount := 0, done := [], run := true }
 
+/-- the packets of an iteration: `srcIds i` are handed to source copy i, `contIds` to the continuous
+source; together they are the N requested packets 0 … N-1 -/
+def Start (cfg : Cfg) (srcIds : Nat → List Nat) (contIds : List Nat) : Prop :=
+  (((List.range cfg.nsrc).map srcIds).flatten ++ contIds).Perm (List.range cfg.N)
+
+/-- number of packets a task carries itself (source tasks; traversal and re-emission tasks refer to a buffer) -/
+def taskPackets : Option Task → Nat
+  | some ⟨.source _ ids, _⟩ => ids.length
+  | some ⟨.contSource _ _ ids, _⟩ => ids.length
+  | _ => 0
+
 /-! ### DistributedPhotonSource: split of the requested number over sources and subgrid copies -/
 
 /-- per-copy totals of one source: `number_this_source` packets over `ncopy` copies
